@@ -4,4 +4,5 @@ CONSTANTS
   MaxItems = 3
   Use = {1, 2, 6, 9, 11, 13, 14, 15, 16, 17, 18, 19}
 INVARIANTS TypeOK EmitCat
+PROPERTIES ErrIsFinal
 CHECK_DEADLOCK FALSE
